@@ -317,6 +317,10 @@ inductive KOut where
   | flushedOvf (n : Nat)
   | wake (b : Bool)
   | idle
+  /-- (split reap, below) `get_next_cqe` returned a reference to the entry at this index -/
+  | held (i : Nat)
+  /-- (split reap, below) not possible while / without a reference being held -/
+  | borrowed
   deriving DecidableEq, Repr
 
 def kComplete (K : Kern) (s : KSt) (i : Nat) : KSt × KOut :=
@@ -412,6 +416,61 @@ def expWord (K : Kern) (ents : List Ent) (deps : List (Option Nat)) (q : Nat) : 
   match ents[q]? with
   | none => 0
   | some e => cqeWord (K.ud e.val) (outcome K ents deps q).1
+
+/-! ### below call granularity: the reference `get_next_cqe` returns
+
+`get_next_cqe` advances the shared completion head (`fetch_add`, Release) BEFORE it returns the reference to the
+entry, i.e. the slot is handed back to the kernel while the caller has not read it yet.  `reap` above reads at
+return time (call granularity, as C17 quantifies).  Here the call is split: `reapBegin` = the call returns (head
+advanced, reference held), `reapRead` = the caller reads through the reference; kernel steps may come in
+between (the borrow checker stops the application from touching the ring while it holds the reference, not the
+kernel). -/
+
+structure KSt2 where
+  k : KSt
+  /-- index of the completion entry the application holds a reference to -/
+  held : Option Nat
+
+inductive KOp2 where
+  | k (op : KOp)
+  | reapBegin
+  | reapRead
+  deriving DecidableEq, Repr
+
+/-- ring methods the borrow of the returned reference rules out -/
+def KOp.isApp : KOp → Bool
+  | .get _ => true
+  | .flush => true
+  | .reap => true
+  | .wake => true
+  | _ => false
+
+def kstep2 (K : Kern) (cd : Code) (s : KSt2) : KOp2 → KSt2 × KOut
+  | .k op =>
+    if s.held.isSome && op.isApp then (s, .borrowed)
+    else let r := kstep K cd s.k op; ({ s with k := r.1 }, r.2)
+  | .reapBegin =>
+    match s.held with
+    | some _ => (s, .borrowed)
+    | none =>
+      match getNextCqe cd s.k.ring with
+      | .panic r1 => ({ s with k := { s.k with ring := r1 } }, .app .panic)
+      | .ok r1 none => ({ s with k := { s.k with ring := r1 } }, .app .noCqe)
+      | .ok r1 (some i) => ({ k := { s.k with ring := r1 }, held := some i }, .held i)
+  | .reapRead =>
+    match s.held with
+    | none => (s, .borrowed)
+    | some i =>
+      let r := s.k.ring
+      ({ k := { s.k with ring := { r with reaped := r.reaped ++ [⟨i, r.cqMem i⟩] } }, held := none },
+       .app (.cqe (r.cqMem i)))
+
+def krun2 (K : Kern) (cd : Code) : KSt2 → List KOp2 → KSt2 × List KOut
+  | s, [] => (s, [])
+  | s, op :: ops =>
+    let r := kstep2 K cd s op
+    let q := krun2 K cd r.1 ops
+    (q.1, r.2 :: q.2)
 
 /-- the content of a submission entry as the simulated kernel of harness/c18 reads it: `user_data: u64`,
 `flags: u8`, `len: u32` (every other field zero) -/
